@@ -414,6 +414,8 @@ def report(prop, tier, seed, t0, results, meta, args):
             json.dump(evidence, f, indent=1, default=repr)
 
     print(f"[{prop}] tier={tier} harnesses={len(results)} obligations={n_ob} discharged={n_dis} queries={total_queries} solver_s={solver_secs:.1f} wall_s={wall:.1f}")
+    for b in bounded_runs:
+        print(f"BOUNDED-FALLBACK property={prop} harness={b['harness']} ({b['why']}): {b['bound']} -> {b['result']}")
     for k, rp, nat in known_hit:
         print(f"KNOWN-FINDING: property={prop} {k['id']} {k['what']} (replay={rp}, native={nat.get('verdict')})")
     for e in errors:
